@@ -169,7 +169,10 @@ class ReverseLT(Generic[LT]):
 
     def __eq__(self, other: object) -> bool:
         # equal keys must compare equal for tuples to fall through to the tie-breaker
-        return isinstance(other, ReverseLT) and self.key == other.key
+        # the very same key counts as equal even if it is not ``==`` itself, as for tuples
+        return isinstance(other, ReverseLT) and (
+            self.key is other.key or self.key == other.key
+        )
 
     __hash__ = None  # type: ignore[assignment]
 
